@@ -130,6 +130,14 @@ def run_job(job):
         t.loc[s['id'], 'Beads ID'] = s['beads']
         samples.append(t)
     stt = pd.concat(samples) if samples else W.samples_table([], 'A', style=cfg.get('padded', False))
+    if cfg.get('user_columns'):
+        # columns of the user's own, documented as ignored and copied through - also when their header happens to end
+        # like a FlowCal header in other capitals
+        stt['Strain'] = 'MG1655'
+        stt['Inducer units'] = 'uM'
+        if len(bt):
+            bt = bt.copy()
+            bt['Lot mef values'] = 'AK02'
     stem = 'growth.2024.06' if cfg.get('dotted') else 'experiment'      # a name with dots besides the extension's
     inp = os.path.join(d, stem + '.xlsx')
     with pd.ExcelWriter(inp, engine='openpyxl') as wr:
@@ -266,7 +274,7 @@ def workbook_configs(chk):
             samples.append(dict(id='S%03d' % (k + 1), inst=ins, row=row, variant=i + k, frac=[0.3, 0.85, 0.5][(i + k) % 3],
                                 beads=bid[0] if bid else None))
         cfgs.append(dict(instruments=sorted(set(insts)), beads=beads, samples=samples, plot=(i % 2 == 1), hist=(i % 4 in (1, 2)),
-                         explicit_out=(i % 3 == 0), cli=(i % 4 == 2), padded=(i % 4 == 1), dotted=(i % 2 == 0)))     # padded: ' FL1-H  Units ' headers
+                         explicit_out=(i % 3 == 0), cli=(i % 4 == 2), padded=(i % 4 == 1), dotted=(i % 2 == 0), user_columns=(i % 3 != 1)))     # padded: ' FL1-H  Units ' headers
     return cfgs
 
 
